@@ -152,6 +152,7 @@ def run(ck):
     ck.print_assumptions(["DSP.C09"], ["DSP.C09." + t for t in THEOREMS])
     ck.source_tie("parser")
     ck.source_tie("expand")
+    ck.source_tie("eval")
     ck.hygiene()
     ck.ocaml_build()
     ck.harness_build(["c09"])
